@@ -43,6 +43,7 @@ PROBES = [
     "export_multilayer", "export_ge_3_layers", "export_with_lineSpacing",
     "abort_inside_export", "abort_inside_construct", "peer_failed_inside_construct",
     "export_to_path_written_before", "poked_between_exports", "option_changed_on_live_timeline",
+    "options_dict_shared_by_caller",
 ]
 
 RULE = (
@@ -261,6 +262,17 @@ def gen_plan(rng, tier):
         swarm["pool"] = {"u": sorted(rng.random() for _ in range(rng.choice([4, 6, 8]))),
                          "span_days": rng.choice([40, 400, 4000])}
     slots = [gen_spec(rng, i, swarm) for i in range(nslots)]
+    if rng.random() < 0.12:
+        # one options dict object re-used by the caller for all (time-scale) slots
+        base = None
+        for sp in slots:
+            if sp["scale"] != "own_linear":
+                if base is None:
+                    base = copy.deepcopy(sp["options"])
+                    base.pop("domain", None)
+                sp["options"] = copy.deepcopy(base)
+                sp["scale"] = "default"
+                sp["share_key"] = "A"
     initial = copy.deepcopy(slots)
     constructed = [False] * nslots
     nfile = 0
@@ -310,7 +322,10 @@ def gen_plan(rng, tier):
                 fault = abort_fault(1.0)
             if fault and fault["kind"] in ("disk_copy", "peer_exit", "peer_missing"):
                 build_pdf = True  # place the fault inside an operation that reaches the peer
-            ops.append(["export_file", i, "/simfs/out%d_%d%s" % (i, fileno, ext), build_pdf, fault])
+            fpath = "/simfs/out%d_%d%s" % (i, fileno, ext)
+            if rng.random() < 0.25:
+                fpath = "/simfs/shared_%d%s" % (fileno, ext)  # a file name other timelines write to as well
+            ops.append(["export_file", i, fpath, build_pdf, fault])
         elif r < 0.67:
             ops.append(["poke", i])
         elif r < 0.69:
@@ -334,6 +349,12 @@ def gen_plan(rng, tier):
             "swarm": swarm}
     if tier == "thorough" and rng.random() < 0.004:
         plan["cold_crosscheck"] = True
+    if rng.random() < 0.1:
+        plan["pyopt"] = 1  # environment: the library compiled as under `python -O`
+    if rng.random() < 0.03:
+        # "a fresh process" also means another string-hash seed: one reference of this run
+        # is computed in a cold interpreter started with this PYTHONHASHSEED
+        plan["hashseed_ref"] = rng.randrange(1, 9)
     return plan
 
 
@@ -386,10 +407,18 @@ def materialise(spec):
     return data, options
 
 
-def _construct(spec):
+_SHARED_OPTIONS = {}  # per run child: option dicts the caller re-uses for several timelines
+
+
+def _construct(spec, share=False):
     from labella.timeline import TimelineSVG, TimelineTex
 
     data, options = materialise(spec)
+    if share and spec.get("share_key"):
+        # the caller passes ONE options dict object to several timelines (as every
+        # script under examples/ does); it holds no scale, so nothing but the dict
+        # itself is shared
+        options = _SHARED_OPTIONS.setdefault(spec["share_key"], options)
     cls = TimelineSVG if spec["backend"] == "svg" else TimelineTex
     return cls(data, options=options)
 
@@ -432,6 +461,11 @@ def _do_export(tl, spec, fs, op):
 # ------------------------------------------------------------------ execution (child)
 
 def _run(plan):
+    if plan.get("pyopt"):
+        # the library as `python -O` compiles it (assert statements stripped)
+        from ..util import reimport_labella
+
+        reimport_labella(optimize=1)
     seams.silence_stdio()
     sys.setrecursionlimit(3000)  # the harness's own frames must never decide whether the solver's recursion fits
     clock = seams.SimClock(plan["clock"]["start"], plan["clock"]["tick_s"])
@@ -564,8 +598,10 @@ def _run(plan):
             r0 = len(clock.readings)
             calls0 = peer.calls
             try:
-                objs[i] = _construct(spec)
+                objs[i] = _construct(spec, share=True)
                 outcome = "ok"
+                if spec.get("share_key"):
+                    bump("probe:options_dict_shared_by_caller")
             except Exception as e:
                 objs[i] = None
                 outcome = "raise:" + type(e).__name__
@@ -740,6 +776,10 @@ def _traced(fault, dry, real):
 
 def _reference(job):
     """Pristine child: the same spec, alone: construct, then the one export."""
+    if job.get("pyopt"):
+        from ..util import reimport_labella
+
+        reimport_labella(optimize=1)
     if not job.get("keep_stdout"):
         seams.silence_stdio()
     sys.setrecursionlimit(3000)
@@ -796,10 +836,11 @@ def execute(plan):
     for ev in res["events"]:
         if ev["kind"] == "construct":
             key = h64([ev["spec"], ev["readings"], None])
-            job = {"spec": ev["spec"], "readings": ev["readings"], "op": None}
+            job = {"spec": ev["spec"], "readings": ev["readings"], "op": None, "pyopt": plan.get("pyopt")}
         else:
             key = h64([ev["spec"], ev["readings"], ev["op"][0], ev["op"][2:], ev.get("tweaks")])
-            job = {"spec": ev["spec"], "readings": ev["readings"], "op": ev["op"], "tweaks": ev.get("tweaks")}
+            job = {"spec": ev["spec"], "readings": ev["readings"], "op": ev["op"], "tweaks": ev.get("tweaks"),
+                   "pyopt": plan.get("pyopt")}
         if ev["faulted"]:
             counters["exports_exempt_hit_by_fault"] = counters.get("exports_exempt_hit_by_fault", 0) + 1
             continue
@@ -832,6 +873,19 @@ def execute(plan):
                 violations.append({"property": "C10", "class": "construct_outcome_differs", "step": ev["step"],
                                    "detail": {"slot": ev["slot"], "alone": ref["construct"], "in_history": "ok"}})
             continue
+        if plan.get("hashseed_ref") and not counters.get("hashseed_references") and not plan.get("pyopt"):
+            from ..driver import cold_reference
+
+            counters["hashseed_references"] = 1
+            other = cold_reference(NAME, job, hashseed=plan["hashseed_ref"])
+            if other != ref and not violations:
+                d = _first_diff(_text(ref.get("result", {}).get("ret", ["", ""])[1]),
+                                _text(other.get("result", {}).get("ret", ["", ""])[1]))
+                violations.append({"property": "C10", "class": "export_depends_on_hash_seed", "step": ev["step"],
+                                   "detail": {"slot": ev["slot"], "hash_seed": plan["hashseed_ref"],
+                                              "first_difference": d,
+                                              "note": "the same spec alone in two fresh interpreters (PYTHONHASHSEED 0 and %d) "
+                                                      "gives different documents" % plan["hashseed_ref"]}})
         want, got = ref["result"], ev["result"]
         if want["ret"][0] == "raise" and got["ret"] == want["ret"]:
             counters["probe:export_raised_both"] = counters.get("probe:export_raised_both", 0) + 1
